@@ -456,6 +456,36 @@ pub fn std_subs(ctx: &Ctx, scale_q: u64, scale_t: u64) -> Vec<Sub> {
     ]
 }
 
+/// Pipe-style sources: every k-th read returns fewer samples than asked for although input remains
+/// (k = 2..=4). At least three blocks, so that a short read really happens mid-stream.
+pub fn shortread_sub(ctx: &Ctx) -> Sub {
+    let n = ctx.tier.pick(200, 6000);
+    Sub {
+        name: "shortread",
+        n,
+        gen: Box::new(|r| {
+            let mut c = gen_case(r, &Limits { max_samples: 6000, max_blocks: 8, max_block_size: 512, ..Limits::default() });
+            let need = c.block * 3 + 7;
+            if c.audio.frames() < need {
+                let mut a = (*c.audio).clone();
+                let ch = a.channels;
+                if a.samples.is_empty() {
+                    a.samples = vec![1; ch];
+                }
+                while a.samples.len() < need * ch {
+                    let ext = a.samples.clone();
+                    a.samples.extend(ext);
+                }
+                a.samples.truncate(need * ch);
+                c.audio = Arc::new(a);
+            }
+            c.mode = if r.flip() { FillMode::IntShort } else { FillMode::BytesShort };
+            c.hint = r.flip();
+            c
+        }),
+    }
+}
+
 pub fn short_sub(ctx: &Ctx) -> Sub {
     // index-driven: every residue 1..=70 x {0,1,2} full blocks
     let n = ctx.tier.pick(840, 12_600);
@@ -968,6 +998,7 @@ pub fn run_c04(ctx: &Ctx) -> i32 {
     });
     let mut subs = std_subs(ctx, 40, 25);
     subs.push(short_sub(ctx));
+    subs.push(shortread_sub(ctx));
     drive(ctx, subs, &[oracle_c04], &mut out, has_frames);
     let short = out.stats.get("final_block_shorter_than_16").copied().unwrap_or(0);
     let fin = Finish {
